@@ -685,7 +685,7 @@ class C14(Prop):
         "sources_are_setting_sequences_env", "sources_are_setting_sequences_cfg", "sources_are_setting_sequences_cmdline",
         "spoof_is_cmdline_of_its_words", "cfg_line_name_arg", "cfg_line_flag", "cfg_line_missing_argument", "cfg_line_unknown_option",
         "long_option_eq_form", "long_option_sep_form", "long_flag_form", "short_option_attached_form", "short_option_sep_form", "concatenated_short_flags",
-        "successful_run_is_history", "successful_cfgfile_is_history", "successful_cmdline_is_history", "last_setter_wins", "untouched_keeps_state", "fresh_object_all_default", "reuse_restores_defaults",
+        "successful_run_is_history", "successful_cfgfile_is_history", "successful_cmdline_is_history", "cmdline_success_is_history", "cfgfile_success_is_history", "environment_success_is_history", "last_setter_wins", "untouched_keeps_state", "fresh_object_all_default", "reuse_restores_defaults",
         "same_source_twice_is_usage_error", "set_after_toggle_by_same_source_is_usage_error",
         "set_option_spec", "toggle_switches_others_off", "optlist_element_denotes_named_option", "optlist_reads_back_names",
         "abbrev_full_name_resolves", "abbrev_resolves_iff_unique", "abbrev_ambiguous_iff_two", "abbrev_unknown_iff",
@@ -859,16 +859,18 @@ class C14(Prop):
         return None
 
     def check_dump(self, case, l, cmd_failed=False):
-        m = re.match(r"ok argn=(-?\d+) args=(\S*) opts=(\S*)$", l)
+        m = re.match(r"ok argn=(-?\d+) args=(\S*) a0=(\S*) opts=(\S*)$", l)
         if not m:
             return "malformed dump line %r" % l[:200]
+        if m.group(3) != "~~":
+            return "GetArg(0) / GetArg(-1) returned an argument"
         argn = int(m.group(1))
         args = m.group(2).split(",") if m.group(2) else []
         if not cmd_failed and argn >= 0 and (len(args) != argn + 1 or args[-1] != "~" or any(a == "~" for a in args[:-1])):
             return "GetArg inconsistent with ArgNumber=%d: %r" % (argn, args)
         types = [int(dict(x.split("=", 1) for x in o.split()[1:])["type"]) for o in case["ops"] if o.startswith("opt ")]
         defs = [dict(x.split("=", 1) for x in o.split()[1:])["def"] for o in case["ops"] if o.startswith("opt ")]
-        fields = m.group(3).split(";")
+        fields = m.group(4).split(";")
         if len(fields) != len(types):
             return "dump has %d options, table has %d" % (len(fields), len(types))
         for i, (f, ty, de) in enumerate(zip(fields, types, defs)):
@@ -937,7 +939,7 @@ class C14(Prop):
             elif w[0] == "cfg":
                 steps.append({"cfgfile": unhx(kv.get("s", "~")), "->": l})
             elif w[0] == "dump":
-                m = re.match(r"ok argn=(-?\d+) args=(\S*) opts=(\S*)$", l)
+                m = re.match(r"ok argn=(-?\d+) args=(\S*) a0=\S* opts=(\S*)$", l)
                 if m:
                     steps.append({"dump": {"args": [unhx(a) for a in m.group(2).split(",") if a][:-1],
                                            "options(value/setter/IsDefault,IsOn,IsUsed/getter)": m.group(3).split(";")}})
